@@ -101,6 +101,8 @@ theorem parse_spec {β : Type} (T : Tables) (hT : T.OK) (C : BodyCodec β) (sm :
   rw [← hraw, hT.format, if_neg (by simp [headerFormatStr]), lendian_of]
   rw [unmarshalHeader_enc T.align hT.align _ fds sm (endianOf_decide _).symm hv hfd]
   dsimp only
+  unfold parseAfterHeader
+  dsimp only
   rw [hcls]
   dsimp only
   have hsplit : Spec.encodeMsg sm =
